@@ -1,0 +1,228 @@
+// Verification hook: compiled only with the `verif_hooks` cargo feature.
+
+//! A `Protocol` wrapper that lets an external harness observe, fail, or
+//! schedule every storage operation of a [Transport].
+//!
+//! Nothing in here is used by Conserve itself; with the feature off this
+//! module is not compiled.
+
+use std::path::PathBuf;
+use std::sync::Arc;
+
+use async_trait::async_trait;
+use bytes::Bytes;
+use url::Url;
+
+use super::protocol::Protocol;
+use super::record::Verb;
+use super::{DirEntry, Error, ErrorKind, Metadata, Result, Transport, WriteMode};
+
+/// One storage operation about to be performed (or just performed).
+#[derive(Debug, Clone)]
+pub struct Call<'a> {
+    pub verb: Verb,
+    /// Path relative to the transport on which the interceptor was installed
+    /// (normally the archive root), without leading or trailing slash.
+    pub path: String,
+    /// For writes, the bytes to be written.
+    pub payload: Option<&'a [u8]>,
+    /// For writes, the requested mode.
+    pub write_mode: Option<WriteMode>,
+}
+
+/// What the interceptor wants done with an operation.
+#[derive(Debug, Clone, Copy, PartialEq, Eq)]
+pub enum Action {
+    /// Perform the operation on the underlying transport.
+    Proceed,
+    /// Do not touch the underlying transport; return an error of this kind.
+    Fail(ErrorKind),
+}
+
+/// Callbacks invoked around every operation of a hooked transport.
+///
+/// `before` may block the calling thread (that is how a scheduler parks an actor).
+pub trait Interceptor: Send + Sync + 'static {
+    fn before(&self, call: &Call<'_>) -> Action;
+
+    fn after(&self, _call: &Call<'_>, _ok: bool) {}
+
+    /// If true (the default) operations of this transport family are serialized:
+    /// at most one is between `before` and `after` at any time.
+    fn serialize(&self) -> bool {
+        true
+    }
+}
+
+struct Hooked {
+    inner: Arc<dyn Protocol>,
+    sub_path: String,
+    hook: Arc<dyn Interceptor>,
+    gate: Arc<tokio::sync::Mutex<()>>,
+}
+
+impl std::fmt::Debug for Hooked {
+    fn fmt(&self, f: &mut std::fmt::Formatter<'_>) -> std::fmt::Result {
+        write!(f, "Hooked({:?}, {:?})", self.inner, self.sub_path)
+    }
+}
+
+impl Hooked {
+    fn full_path(&self, relpath: &str) -> String {
+        let relpath = relpath.trim_matches('/');
+        if relpath.is_empty() || relpath == "." {
+            self.sub_path.clone()
+        } else if self.sub_path.is_empty() {
+            relpath.to_owned()
+        } else {
+            format!("{}/{}", self.sub_path, relpath)
+        }
+    }
+
+    fn injected(&self, kind: ErrorKind) -> Error {
+        Error {
+            kind,
+            source: Some("injected by verif hook".into()),
+            url: None,
+        }
+    }
+
+    async fn lock(&self) -> Option<tokio::sync::MutexGuard<'_, ()>> {
+        if self.hook.serialize() {
+            Some(self.gate.lock().await)
+        } else {
+            None
+        }
+    }
+}
+
+macro_rules! hooked_op {
+    ($self:ident, $verb:expr, $relpath:expr, $payload:expr, $mode:expr, $op:expr) => {{
+        let _guard = $self.lock().await;
+        let call = Call {
+            verb: $verb,
+            path: $self.full_path($relpath),
+            payload: $payload,
+            write_mode: $mode,
+        };
+        match $self.hook.before(&call) {
+            Action::Fail(kind) => {
+                $self.hook.after(&call, false);
+                Err($self.injected(kind))
+            }
+            Action::Proceed => {
+                let result = $op.await;
+                $self.hook.after(&call, result.is_ok());
+                result
+            }
+        }
+    }};
+}
+
+#[async_trait]
+impl Protocol for Hooked {
+    async fn read(&self, path: &str) -> Result<Bytes> {
+        hooked_op!(self, Verb::Read, path, None, None, self.inner.read(path))
+    }
+
+    async fn write(&self, relpath: &str, content: &[u8], mode: WriteMode) -> Result<()> {
+        hooked_op!(
+            self,
+            Verb::Write,
+            relpath,
+            Some(content),
+            Some(mode),
+            self.inner.write(relpath, content, mode)
+        )
+    }
+
+    async fn list_dir(&self, relpath: &str) -> Result<Vec<DirEntry>> {
+        hooked_op!(
+            self,
+            Verb::ListDir,
+            relpath,
+            None,
+            None,
+            self.inner.list_dir(relpath)
+        )
+    }
+
+    async fn create_dir(&self, relpath: &str) -> Result<()> {
+        hooked_op!(
+            self,
+            Verb::CreateDir,
+            relpath,
+            None,
+            None,
+            self.inner.create_dir(relpath)
+        )
+    }
+
+    async fn metadata(&self, relpath: &str) -> Result<Metadata> {
+        hooked_op!(
+            self,
+            Verb::Metadata,
+            relpath,
+            None,
+            None,
+            self.inner.metadata(relpath)
+        )
+    }
+
+    async fn remove_file(&self, relpath: &str) -> Result<()> {
+        hooked_op!(
+            self,
+            Verb::RemoveFile,
+            relpath,
+            None,
+            None,
+            self.inner.remove_file(relpath)
+        )
+    }
+
+    async fn remove_dir_all(&self, relpath: &str) -> Result<()> {
+        hooked_op!(
+            self,
+            Verb::RemoveDirAll,
+            relpath,
+            None,
+            None,
+            self.inner.remove_dir_all(relpath)
+        )
+    }
+
+    fn chdir(&self, relpath: &str) -> Arc<dyn Protocol> {
+        Arc::new(Hooked {
+            inner: self.inner.chdir(relpath),
+            sub_path: self.full_path(relpath),
+            hook: Arc::clone(&self.hook),
+            gate: Arc::clone(&self.gate),
+        })
+    }
+
+    fn url(&self) -> &Url {
+        self.inner.url()
+    }
+
+    fn local_path(&self) -> Option<PathBuf> {
+        self.inner.local_path()
+    }
+}
+
+impl Transport {
+    /// Return a transport onto the same location whose every operation (and those of
+    /// all transports derived from it by `chdir`) passes through `hook`.
+    #[must_use]
+    pub fn with_interceptor(self, hook: Arc<dyn Interceptor>) -> Transport {
+        let hooked = Hooked {
+            inner: Arc::clone(&self.protocol),
+            sub_path: String::new(),
+            hook,
+            gate: Arc::new(tokio::sync::Mutex::new(())),
+        };
+        Transport {
+            protocol: Arc::new(hooked),
+            ..self
+        }
+    }
+}
